@@ -1,6 +1,7 @@
 #!/bin/bash
 # development aid: tools/mut.sh <ID> <python-expr-old> <new>  -- replaces text in /repo/gin/*.py, runs the quick check, reverts
 ID=$1; shift
+if [ -n "$(git -C /repo status --porcelain --untracked-files=no)" ]; then echo 'refusing: /repo has uncommitted changes'; exit 3; fi
 python3 - "$@" <<'P'
 import sys,glob
 old,new=sys.argv[1],sys.argv[2]
@@ -12,4 +13,4 @@ for f in glob.glob('/repo/gin/*.py'):
 print('mutated files:',n)
 P
 cd /verif && bin/check $ID quick 2>&1 | grep -E "VIOLATION|HARNESS-ERROR|KNOWN|quick:" | head -5
-git -C /repo checkout -- . 
+git -C /repo checkout -- .
